@@ -42,6 +42,8 @@ enum Tok {
     /// a constant whose value is not an integer (boolean / string): it cannot be listed as a number, but it still
     /// opens a scope and its nested children must be listed
     OtherConst { text: String, name: &'static str },
+    /// a constant with a negative value: listed by the symbol-table formats with its sign
+    NegConst { text: String, name: &'static str, value: i64 },
     Res { text: String, n: u64 },
     Align { text: String, n: u64 },
     Addr { text: String, x: u64 },
@@ -51,7 +53,7 @@ enum Tok {
 impl Tok {
     fn text(&self) -> &str {
         match self {
-            Tok::Instr { text, .. } | Tok::Data { text, .. } | Tok::Label { text, .. } | Tok::Const { text, .. } | Tok::OtherConst { text, .. } | Tok::Res { text, .. } | Tok::Align { text, .. } | Tok::Addr { text, .. } | Tok::Bank { text, .. } => text,
+            Tok::Instr { text, .. } | Tok::Data { text, .. } | Tok::Label { text, .. } | Tok::Const { text, .. } | Tok::OtherConst { text, .. } | Tok::NegConst { text, .. } | Tok::Res { text, .. } | Tok::Align { text, .. } | Tok::Addr { text, .. } | Tok::Bank { text, .. } => text,
         }
     }
 }
@@ -89,6 +91,7 @@ fn common_toks() -> Vec<Tok> {
         Tok::Const { text: s("#const(noemit) h = 7"), name: "h", value: 7, noemit: true },
         Tok::OtherConst { text: s("t = 1 == 1"), name: "t" },
         Tok::OtherConst { text: s("s = \"ab\""), name: "s" },
+        Tok::NegConst { text: s("n = -5"), name: "n", value: -5 },
         Tok::Data { text: s("#d8 1, 0xc7"), elems: vec![(4, "1", 8, "00000001"), (7, "0xc7", 8, "11000111")] },
         Tok::Data { text: s("#d16 0x8d2f"), elems: vec![(5, "0x8d2f", 16, "1000110100101111")] },
         Tok::Data { text: s("#d3 0b101"), elems: vec![(4, "0b101", 3, "101")] },
@@ -243,6 +246,8 @@ struct ExpSym {
 struct Expect {
     rows: Vec<ExpRow>,
     syms: Vec<ExpSym>,
+    /// constants with a negative value (name, value)
+    negs: Vec<(String, i64)>,
 }
 
 fn emit(rows: &mut Vec<ExpRow>, pos: &mut [u64], cur: usize, b: &BankDef, loc: &Loc, coloff: usize, text: &str, size: u64, bits: String) -> Result<(), String> {
@@ -262,6 +267,7 @@ fn model(cfg: &Config, toks: &[&Tok], locs: &[Loc]) -> Result<Expect, String> {
     let mut pending: Vec<(usize, Enc)> = vec![];
     let mut syms: Vec<ExpSym> = vec![];
     let mut other_names: std::collections::BTreeSet<String> = std::collections::BTreeSet::new();
+    let mut negs: Vec<(String, i64)> = vec![];
     let declare = |syms: &mut Vec<ExpSym>, s: ExpSym| -> Result<(), String> {
         if syms.iter().any(|x| x.name == s.name) {
             return Err(format!("duplicate symbol {}", s.name));
@@ -313,6 +319,14 @@ fn model(cfg: &Config, toks: &[&Tok], locs: &[Loc]) -> Result<Expect, String> {
                 declare(&mut syms, ExpSym { name: full, value, label: Some((cur, pos[cur])), noemit: false })?;
                 rows.push(ExpRow { offset: b.outp.map(|o| o + pos[cur]), addr: value, size: 0, bits: String::new(), text: text.clone(), loc: loc.clone(), bank: cur });
             }
+            Tok::NegConst { name, value, .. } => {
+                if !other_names.insert(name.to_string()) || syms.iter().any(|x| x.name == *name) {
+                    return Err("duplicate symbol".into());
+                }
+                negs.push((name.to_string(), *value));
+                parent0 = Some(name.to_string());
+                parent1 = None;
+            }
             Tok::OtherConst { name, .. } => {
                 if !other_names.insert(name.to_string()) || syms.iter().any(|x| x.name == *name) {
                     return Err("duplicate symbol".into());
@@ -357,7 +371,7 @@ fn model(cfg: &Config, toks: &[&Tok], locs: &[Loc]) -> Result<Expect, String> {
         }
         rows[ri].bits = s;
     }
-    Ok(Expect { rows, syms })
+    Ok(Expect { rows, syms, negs })
 }
 
 // ------------------------------------------------------------------------------------------------
@@ -961,9 +975,23 @@ fn judge_variant(env: &Env, v: &Variant, fmt_idx: &[usize], l: &mut Local) {
             }
             (Ok(t), Kind::Symbols) => {
                 let (list, junk) = p::parse_symbols(t);
+                let neg = p::parse_negative_symbols(t);
                 match junk.first() {
                     Some(j) => Err(("unparsable", format!("line `{}`", j))),
-                    None => check_symbols(&list, &exp),
+                    None => check_symbols(&list, &exp).and_then(|_| {
+                        for (n, v) in &exp.negs {
+                            match neg.iter().filter(|x| x.0 == *n).collect::<Vec<_>>().as_slice() {
+                                [one] if one.1 == *v as i128 => {}
+                                [one] => return Err(("value", format!("{} is listed as {}, its value is {}", n, one.1, v))),
+                                [] => return Err(("value", format!("{} = {} is not listed with that (negative) value", n, v))),
+                                _ => return Err(("extra", format!("{} is listed more than once", n))),
+                            }
+                        }
+                        match neg.iter().find(|x| !exp.negs.iter().any(|e| e.0 == x.0)) {
+                            Some(x) => Err(("extra", format!("{} = {} is listed but no declared symbol has that value", x.0, x.1))),
+                            None => Ok(()),
+                        }
+                    }),
                 }
             }
             (Ok(t), Kind::Mlb) => {
